@@ -1,7 +1,7 @@
 """C16 — meaning is invariant under renaming, layout and agreeing annotations (narrow structural clauses)."""
 from .. import roles
 from ..cfg import reachable
-from ..facts import KIND, callee
+from ..facts import KIND, callee, place_fields
 from ..rules import cover
 from ..symex import PathLimit, SymEx, show
 
@@ -349,6 +349,57 @@ def rule_element_type(ck, facts, R="C16.annotation"):
     ck.floor(R, "sub_pattern_rewraps", n, 1)
 
 
+
+def rule_trivia_scan(ck, facts, R="C16.linebreak"):
+    """whether a line break follows a token does not depend on the comments and blanks around it"""
+    from ..cfg import DefIndex, natural_loops
+
+    ck.rule(R, "trivia-scan: the parser methods that answer `is there a line break behind this token` (bool methods of the CST parser that read the trailing-trivia map) look at every trivia token recorded there: the scanning loop is left only when a line break was found (the `true` answer) or when the list is exhausted — not at the first comment or blank, which would make the statement boundary depend on a comment")
+    lang = facts.crate(roles.LANG)
+    n = 0
+    for f in lang.fns:
+        if "::parser::cst_parser::" not in f.path or f.kind != "assoc" or f.local_ty(0) != "bool" or "::test" in f.path:
+            continue
+        reads = any(any((x or "").endswith("trailing_trivia_map") for pl in _places_of(st)[1:] for x in place_fields(pl)) for _, st in f.all_stmts() if st[KIND] == "a")
+        if not reads:
+            continue
+        di = DefIndex(f)
+        for h, body in natural_loops(f):
+            n += 1
+            bad = None
+            for x in sorted(body):
+                for y in f.succs(x):
+                    if y in body or f.is_cleanup(y):
+                        continue
+                    t = f.term(x)
+                    # (a) the iterator is exhausted
+                    if t[KIND] == "switch" and t[4][0] in ("cp", "mv"):
+                        r = di.resolve(t[4])
+                        if r[0] == "rv" and r[1][5][0] == "disc":
+                            r2 = di.resolve(["cp", [r[1][5][1][0], []]])
+                            if r2[0] == "call" and (callee(r2[1]) or "").split("::")[-1] == "next":
+                                continue
+                    # (b) the answer `true`
+                    z, ok = y, False
+                    for _ in range(12):
+                        for st in f.stmts(z):
+                            if st[KIND] == "a" and st[4] == [0, []] and st[5][0] == "use" and st[5][1][0] == "c" and str(st[5][1][3]).lower() in ("true", "1"):
+                                ok = True
+                        ss = [q for q in f.succs(z) if not f.is_cleanup(q)]
+                        if ok or len(ss) != 1:
+                            break
+                        z = ss[0]
+                    if ok:
+                        continue
+                    bad = (x, y)
+            key = "trivia-scan|%s" % f.short.split("::")[-1]
+            if bad is None:
+                ck.ok(R, key, {"method": f.short.split("::")[-1]})
+            else:
+                ck.bad(R, key, "%s stops scanning the trivia behind a token before it reached a line break or the end of the list (an exit of the loop that is neither): a comment between the token and the line break hides the break, so `foo // note` followed by a line starting with `(` is read as the call `foo(..)` — adding or moving a comment changes the program" % f.short, f.where(f.term(bad[0])))
+    ck.floor(R, "trivia_scanning_loops", n, 1)
+
+
 def run(ck, facts, tier):
     rule_optional_children(ck, facts)
     rule_record_layout(ck, facts)
@@ -356,6 +407,7 @@ def run(ck, facts, tier):
     rule_labels(ck, facts)
     rule_name_spelling(ck, facts)
     rule_linebreak_uniform(ck, facts)
+    rule_trivia_scan(ck, facts)
     from ..rules import invented
 
     invented.run(ck, facts, "C16.invented-names")
